@@ -113,7 +113,28 @@ let () = iter_lines (fun line ->
         let ed = List.map (fun (e, _, _) -> e) per and dd = List.map (fun (_, d, _) -> d) per
         and out = List.map (fun (_, _, o) -> o) per in
         let eds = if kind = "tj" then " -" else group ed in
-        Printf.printf "ok ed%s ; dd%s ; out%s ; tb%s ; ecs%s\n" eds (group dd) (group out) tbs ecs
+        (* tj: the packed destination buffer of tj3Decompress* (filled with 0xC3 bytes before):
+           scatter of the decoded planes through the generated layout of the pixel format *)
+        let bufs = if kind <> "tj" then "" else begin
+          let pf = List.nth a 7 and bottomup = List.nth a 8 = 1 and pad = List.nth a 9 and h = List.nth a 2 in
+          let tj = List.nth gen_tj_layout pf and alpha = List.nth gen_dec_alpha pf in
+          let (_, psz) = tj in let ps = int_of_z psz in
+          let pitch = w * ps + pad in
+          if pitch * h > 1500 then " ; buf -" else begin
+            let slots = dec_slots_of tj alpha in
+            let bits = if prec <= 8 then 8 else if prec <= 12 then 12 else 16 in
+            let fill = if bits = 8 then 195 else if bits = 12 then -15421 else 50115 in
+            let maxs = (1 lsl bits) - 1 in
+            let outa = Array.of_list (List.map (fun rows -> Array.of_list (List.map Array.of_list rows)) out) in
+            let nco = Array.length outa in
+            let v k i x = let k = int_of_nat k and i = int_of_nat i and x = int_of_nat x in
+              zi (if k < nco then outa.(k).(i).(x) else maxs) in
+            let rec rep x k = if k = 0 then [] else x :: rep x (k - 1) in
+            let b = scatter bottomup (nat_of_int w) (nat_of_int h) (nat_of_int pitch) (nat_of_int ps) slots v
+                (rep (zi fill) (pitch * h)) in
+            " ; buf" ^ sp (il b)
+          end end in
+        Printf.printf "ok ed%s ; dd%s ; out%s ; tb%s ; ecs%s%s\n" eds (group dd) (group out) tbs ecs bufs
       end
   | "inj" :: rest ->
       let a = List.map int_of_string rest in
